@@ -194,7 +194,9 @@ type colFeatures struct {
 	predSum int64
 }
 
-func (e *lakeEnv) features(field string) (colFeatures, error) {
+// features describes the column; with keyAtLeast set, objects whose largest pool key is below it are left out (the
+// lister's key-range pruner still skips them in a vectorized plan, although the filter itself is ignored).
+func (e *lakeEnv) features(field string, keyAtLeast *int64) (colFeatures, error) {
 	f := colFeatures{kinds: map[string]bool{}, encs: map[string]int{}}
 	tip, err := e.lk.Tip(e.ctx, e.pool, "main")
 	if err != nil {
@@ -207,6 +209,9 @@ func (e *lakeEnv) features(field string) (colFeatures, error) {
 	f.objects = len(objs)
 	seenInDict := map[string]int{}
 	for _, o := range objs {
+		if keyAtLeast != nil && zed.IsInteger(o.Max.Type().ID()) && !o.Max.IsNull() && o.Max.AsInt() < *keyAtLeast {
+			continue
+		}
 		vals, err := e.lk.ReadObject(e.ctx, e.pool, o, e.zctx)
 		if err != nil {
 			return f, err
@@ -217,13 +222,23 @@ func (e *lakeEnv) features(field string) (colFeatures, error) {
 		intSum := map[zed.Type]int64{}
 		fieldType := map[zed.Type]zed.Type{}
 		for _, v := range vals {
-			fv := v.Deref(field)
-			if fv == nil {
+			rt := zed.TypeRecordOf(v.Type())
+			idx, has := -1, false
+			if rt != nil {
+				idx, has = rt.IndexOfField(field)
+			}
+			if !has {
 				f.kinds["missing"] = true
 				continue
 			}
+			fieldType[v.Type()] = rt.Fields[idx].Type
+			fv := v.Deref(field)
+			if fv == nil {
+				// Deref gives nil for a null field
+				f.kinds["null"] = true
+				continue
+			}
 			f.kinds[coarse(kindOf(*fv))] = true
-			fieldType[v.Type()] = fv.Type()
 			if fv.IsNull() {
 				// nulls are kept apart from the column's values by the VNG writer
 				continue
@@ -337,7 +352,7 @@ func lakeRootCause(p LakeProg, r lakeRun, f colFeatures, ref, bound []zed.Value)
 			return "countby/dict-counts-overwritten"
 		}
 	case "sum":
-		if len(r.vals) != 1 || len(ref) != 1 {
+		if len(r.vals) != 1 || len(ref) > 1 || len(ref) == 0 && !hasFilter {
 			return ""
 		}
 		// `sum(n)` yields the bare value; `... | yield {total:this}` wraps it
@@ -350,8 +365,14 @@ func lakeRootCause(p LakeProg, r lakeRun, f colFeatures, ref, bound []zed.Value)
 			}
 			return &v
 		}
-		got, want := unwrap(r.vals[0]), unwrap(ref[0])
-		if got == nil || want == nil || got.Type() != zed.TypeInt64 || got.IsNull() || got.Int() != f.predSum {
+		got := unwrap(r.vals[0])
+		want := &zed.Null
+		if len(ref) == 1 {
+			if w := unwrap(ref[0]); w != nil {
+				want = w
+			}
+		}
+		if got == nil || got.Type() != zed.TypeInt64 || got.IsNull() || got.Int() != f.predSum {
 			return ""
 		}
 		switch {
@@ -537,7 +558,12 @@ func runLakeCase(c LakeCase) *vt.Outcome {
 			sig := "C09/lake/" + state + "/" + p.Shape + "/" + sym
 			feat := ""
 			if got.vectorize {
-				f, ferr := e.features(p.Field)
+				var keyBound *int64
+				if strings.Contains(p.Text, "where k >= 2 |") {
+					two := int64(2)
+					keyBound = &two
+				}
+				f, ferr := e.features(p.Field, keyBound)
 				if ferr != nil {
 					o.Fail = fail("C09/setup", "%v", ferr)
 					return false
@@ -677,8 +703,12 @@ func showFirst(vals []zed.Value) string {
 var lakeProp = &vt.Prop[LakeCase]{
 	Name: "TestVamLake",
 	Rule: "lake level: pool keyed on k (asc/desc, threshold {1,60,200,default}) loaded with 1..3 batches of 1..12 records {k,s,n}; s drawn from string / string+null / string+missing / string+int / int / bool columns and n from int64 / uint64 / float (quarter-valued, so sums are exact) / mixes with null, missing, string, int32 - each as const or dictionary column per load (6%: one load of 258..280 records with distinct values, i.e. plain vectors); " +
-		"1..3 programs from the auto-vectorized shapes (`count() by <field>`, `sum(<field>)` on s, n, the pool key; with a leading filter; followed by other operators) and programs that must not be vectorized; every program is executed at parallelism 2 through NewJob->Optimize->Parallelize(2)->Build in four vector states: no vectors (reference), vectors on some objects, vectors on all objects, after DeleteVectors (of some or all). " +
-		"All states must return the reference's multiset and never fail; dag.Vectorize may appear only when every object has vectors. evaluations = program executions after the reference; a case is non-trivial when a built plan contained dag.Vectorize; distinct = (case digest, program).",
+		"1..3 programs from the auto-vectorized shapes (`count() by <field>`, `sum(<field>)` on s, n, the pool key; with a leading filter; followed by other operators) and programs that must not be vectorized; every program is executed at parallelism 2 through NewJob->Optimize->Parallelize(2)->Build in four or five vector states: no vectors (reference), vectors on some objects, vectors on all objects, after DeleteVectors (of some or all) and (50%) after compacting all objects with vectors enabled (small threshold and seek stride, so the rollup spills into several objects). " +
+		"All states must return the reference's multiset and never fail. A difference of a vectorized plan is attributed to a listed finding only where the result is what the finding predicts: sum() must equal a model of HEAD's vector Sum (integer dict/plain columns of the objects the key pruner keeps; const, float and other columns contribute nothing), count() by rows must be bounded by the sequential rows (counts overwritten or groups lost, never invented or over-counted); dag.Vectorize may appear only when every object has vectors. evaluations = program executions after the reference; a case is non-trivial when a built plan contained dag.Vectorize; distinct = (case digest, program).",
 	Gen: genLakeCase,
 	Run: runLakeCase,
+}
+
+func lakehPool() lakeh.PoolSpec {
+	return lakeh.PoolSpec{Name: "p", Key: []string{"k"}, Thresh: 1, Stride: 1}
 }
